@@ -4,7 +4,7 @@ import z3
 from pyvc import smt
 from pyvc.smt import Val, ValList, SeqVal
 from pyvc.values import *  # noqa
-from pyvc.contracts import Contract, Loop
+from pyvc.contracts import Contract, Loop, InjectCfg
 from . import common, server
 from .server import RS, F, S
 
@@ -102,8 +102,8 @@ def build_run_contract(ex, prop):
     only_new_child.__doc__ = ("C11.L3: the list of children only grows by the child just created; no existing child or context (c0 arbitrary) is "
                               "terminated or killed by a client's request or failure - except the context a delete request names")
 
-    main = Loop(invariant=['lsock.open'],
-                modifies=['self.children', 'self.contexts', 'abs:Conn.inq', 'abs:Conn.ipos', 'abs:Conn.out', 'abs:Conn.open', 'abs:Conn.peer_closed',
+    main = Loop(invariant=['lsock.open', server.was_child_inv],
+                modifies=['self.children', 'self.contexts', 'ghost:was_child', 'abs:Conn.inq', 'abs:Conn.ipos', 'abs:Conn.out', 'abs:Conn.open', 'abs:Conn.peer_closed',
                           'abs:RCtx.calls', 'abs:RCtx.waited', 'abs:RCtx.alive', 'abs:RCtx.terminated', 'abs:RCtx.killed', 'abs:RCtx.term_raised'],
                 locals={})
     main.step = [client_settled, context_transition, only_new_child]
@@ -112,8 +112,8 @@ def build_run_contract(ex, prop):
     def handled_at(k):
         return (f'implies(0 <= {k} and {k} < __i__, terminated(__seq__[{k}]) and '
                 f'(term_raised(__seq__[{k}]) or not alive(__seq__[{k}]) or killed(__seq__[{k}])))')
-    fin = Loop(invariant=[handled_at('k1'), handled_at('k2')], variant='__n__ - __i__',
-               modifies=['abs:RCtx.alive', 'abs:RCtx.terminated', 'abs:RCtx.term_raised', 'ghost:killed_pids'],
+    fin = Loop(invariant=[handled_at('k1'), handled_at('k2'), server.was_child_inv], variant='__n__ - __i__',
+               modifies=['ghost:was_child', 'abs:RCtx.alive', 'abs:RCtx.terminated', 'abs:RCtx.term_raised', 'ghost:killed_pids'],
                locals={})
 
     def handled_term(ex_, x):
@@ -155,7 +155,8 @@ def build_run_contract(ex, prop):
         params={'self': ('const', None)}, self_class=RS, setup=setup,
         ensures=['self.closed', stops_only_on_request], raises={}, raises_only=[],
         all_exits=[all_reaped, 'not lsock.open'],
-        loops={0: main, 1: fin}, options=opts)
+        loops={0: main, 1: fin}, options=opts,
+        inject=InjectCfg([RS + '.run'], budget=0, kinds=(), at_point=server.signal_safe_point))
 
 
 def opt_ctx(I, nm):
